@@ -1343,3 +1343,97 @@ def r11_6(rep):
                      and not a.startswith("let ") and "is_empty" not in a]
             rep.check(not extra, "write-unconditional@%s" % p.split("::")[-1], "the output file is written whenever it is produced (conditions: %s)" % extra[:2], b.loc(c))
     rep.check(writes >= 1, "write-sites", "%d output writes inspected" % writes)
+
+
+# ---------------------------------------------------------------------------------------------------------
+# R11.7  scratch files are private to a generation
+# ---------------------------------------------------------------------------------------------------------
+UNIQUE_SOURCES = ("std::process::id", "fetch_add", "tempfile", "SystemTime", "std::thread::current", "ThreadId", "uuid", "mkstemp", "mkdtemp")
+SCRATCH_EXEMPT = {
+    "Builder::dump_preprocessed_input": "a debugging entry point whose documented effect is to write `__bindgen.i` / `__bindgen.ii` into the current directory",
+    "ir::dot::write_dot_file": "writes the graph to the path the user passed (--emit-ir-graphviz)",
+    "options::cli::builder_from_flags": "the output file named on the command line",
+    "deps::DepfileSpec::write": "the depfile path chosen by the user",
+    "Bindings::write_to_file": "the output path chosen by the user",
+}
+
+
+def _path_sources(prog, b, e, depth=0, seen=None):
+    """(string literal pieces, resolved callee names, BindgenOptions fields) the path expression e is built from; follows immutable lets
+    and, for a parameter, the argument at every call site of the function (two levels)."""
+    seen = set() if seen is None else seen
+    lits, calls, opts = [], [], []
+    todo = [e]
+    while todo:
+        x = todo.pop()
+        for n in b.walk(x):
+            if n["k"] == "Lit" and isinstance(n.get("v"), str):
+                lits.append(re.sub(r"[\x00-\x1f�]", "", n["v"]))
+            elif n["k"] in ("Call", "MCall"):
+                calls.append(str(n.get("resolved") or n.get("callee") or ""))
+            elif n["k"] == "Field" and str(n.get("adt", "")).endswith("BindgenOptions"):
+                opts.append(n["f"])
+            elif n["k"] == "Local" and (b.path, n["id"]) not in seen:
+                seen.add((b.path, n["id"]))
+                d = b.local_def.get(n["id"])
+                if not d:
+                    continue
+                if d[0][0] in ("let", "letcond") and d[0][1].get("init") is not None:
+                    todo.append(d[0][1]["init"])
+                elif d[0][0] == "arm":
+                    todo.append(d[0][1]["scrut"])
+                elif d[0][0] == "param" and depth < 2:
+                    idx = d[0][1]
+                    for p2, b2 in prog.bodies.items():
+                        for c in b2.nodes:
+                            if c["k"] in ("Call", "MCall") and str(c.get("resolved") or c.get("callee") or "") == b.path:
+                                args = ([c["recv"]] if c["k"] == "MCall" else []) + list(c.get("args", []))
+                                if idx < len(args):
+                                    l2, c2, o2 = _path_sources(prog, b2, args[idx], depth + 1, seen)
+                                    lits += l2
+                                    calls += c2
+                                    opts += o2
+    return lits, calls, opts
+
+
+@RULES.rule("R11.7", "files a generation creates for itself have names no concurrent generation can share", floor=2)
+def r11_7(rep):
+    """Output files are named by the user.  Scratch files are not: the macro fallback writes `<dir>/.macro_eval.c` and
+    `<dir>/<headers>-precompile.h.pch` (dir defaults to the working directory), the static-function wrappers default to
+    `$TMPDIR/bindgen/extern.c`.  Two generations running at the same time (threads of one process, or two build scripts) then read
+    and delete each other's files: with two threads on two headers 13 of 40 generations produced wrong constants."""
+    prog = rep.prog
+    n = 0
+    for p, b in sorted(prog.bodies.items()):
+        if not b.file.startswith("bindgen/") or b.file.endswith("build.rs"):
+            continue
+        for c in b.nodes:
+            if c["k"] not in ("Call", "MCall"):
+                continue
+            cal = str(c.get("resolved") or c.get("callee") or "")
+            if cal in ("std::fs::File::create", "std::fs::write"):
+                path_e = c["args"][0]
+            elif cal == "std::fs::OpenOptions::open":
+                opts_chain = b.canon(c["recv"], 8)
+                if "create(" not in opts_chain and "write(" not in opts_chain and "truncate(" not in opts_chain:
+                    continue
+                path_e = c["args"][0]
+            else:
+                continue
+            n += 1
+            fn = short_fn(b)
+            ex = next((why for k, why in SCRATCH_EXEMPT.items() if b.path.endswith(k) or k in b.path), None)
+            if ex:
+                rep.ok("scratch-file@" + fn, "exempt: " + ex, b.loc(c))
+                continue
+            lits, calls, opts = _path_sources(prog, b, path_e)
+            names = [l for l in lits if re.search(r"[A-Za-z]", l) and l not in ("c", "cpp")]
+            unique = any(any(u in cc for u in UNIQUE_SOURCES) for cc in calls)
+            if not names:
+                rep.ok("scratch-file@" + fn, "the whole path is chosen by the caller / an option (%s)" % ", ".join(sorted(set(opts))) or "caller", b.loc(c))
+            else:
+                rep.check(unique, "scratch-file@" + fn,
+                          "the name contains a per-generation unique part" if unique else
+                          "the file name is fixed (%s) inside a directory several generations can share: concurrent generations overwrite, "
+                          "read and delete each other's file" % ", ".join(repr(x) for x in names[:3]), b.loc(c))
+    rep.need(n >= 2, "file creations in the library")
